@@ -10,7 +10,7 @@ from sim import gen
 GLOBALS = ['ga', 'gb', 'gc', 'gd', 'ge', 'gf', 'gg', 'gh', 'gi', 'gj', 'gk', 'gm', 'gn', 'gp', 'gq', 'gr']
 LOCALS = ['.l1', '.lp', '.x9']
 FILELABS = ['_f1', '_fq']
-FILE_NAMES = ['a.asm', 'b.asm', 'lib.asm', 'io.asm', 'm_2.asm', 'c-d.asm']
+FILE_NAMES = ['a.asm', 'b.asm', 'lib.asm', 'io.asm', 'm_2.asm', 'c-d.asm', 'A.asm', 'LIB.asm', 'Io.asm']
 DIRS = ['', 'inc', 'lib/sub', 'inc2']
 
 
@@ -33,6 +33,7 @@ class TreeGen:
         self.pg.labels = []
         self.cross_defs = True
         self.cross_consts = []
+        self.inert_include = None
 
     # -- expression helpers (emit split and reference text together) --------------------------------
     def ref16(self, ctx):
@@ -111,6 +112,16 @@ class TreeGen:
             v0, k0 = rnd.randrange(1, 200), rnd.randrange(1, 200)
             items.append({'t': 'line', 's': f'#define SYM0 {v0}', 'r': f'#define SYM0 {v0}'})
             items.append({'t': 'line', 's': f'KG0 = {k0}', 'r': f'KG0 = {k0}'})
+            if rnd.random() < 0.25:
+                # symbols named like words of include file names: an #include line is not subject to substitution
+                for w in rnd.sample(['lib', 'io', 'asm', 'm_2', 'LIB'], 2):
+                    items.append({'t': 'line', 's': f'#define {w} 7', 'r': f'#define {w} 7'})
+            if rnd.random() < 0.25:
+                # includes in unselected code name files that do not exist / exist twice: inert all the same
+                nm = rnd.choice(['nofile9.asm', 'twice9.asm'])
+                for t in ('#if 0', f'#include "{nm}"', '#endif'):
+                    items.append({'t': 'line', 's': t, 'r': t})
+                self.inert_include = nm
         elif not private:
             kv = rnd.randrange(1, 200)
             items.append({'t': 'line', 's': f'KG{idx} = {kv}', 'r': f'KG{idx} = {kv}'})
